@@ -211,8 +211,11 @@ class FakeFS(Model):
             def __exit__(self, *a):
                 return None
 
+        self.encodings = {}
+
         def open_(path, mode='r', *a, **k):
             fs.opened.append((path, mode))
+            fs.encodings.setdefault(path, []).append(k.get('encoding'))
             if 'w' in mode or 'a' in mode or 'x' in mode:
                 h = Handle(path, mode)
                 if 'a' in mode and path in fs.files:
